@@ -56,13 +56,15 @@ const verSuffix = "_0000"
 
 // Op is one step of an index history.
 type Op struct {
-	Kind  string `json:"kind"`            // insert | flush | clear | reopen | delete
+	Kind  string `json:"kind"`            // insert | flush | clear | reopen | delete | check
 	Items []int  `json:"items,omitempty"` // insert: indexes into History.Universe (repeats allowed)
 	Path  string `json:"path,omitempty"`  // insert: builder | mutex | series
 	Par   int    `json:"par,omitempty"`   // insert through the builder path from Par goroutines (overlapping)
 	Empty bool   `json:"empty,omitempty"` // insert: the written points also carry empty-valued tags
-	Del   *Leaf  `json:"del,omitempty"`   // delete: measurement + predicate
+	Del   *Leaf  `json:"del,omitempty"`   // delete: measurement + predicate (key = 'value')
 	DelM  string `json:"delm,omitempty"`
+	Label string `json:"label,omitempty"` // check: name of the phase
+	NPred int    `json:"npred,omitempty"` // check: number of predicates (0: id lookups and listings only)
 }
 
 // History is a self-contained, replayable case.
@@ -181,7 +183,7 @@ func genUniverse(r *rand.Rand, big bool) []Series {
 
 // genHistory: inserts of the whole universe in batches (with re-inserts of known
 // series), interleaved with flush, cache clear and close/reopen.
-func genHistory(r *rand.Rand, id int, bloom, compress bool) *History {
+func genHistory(r *rand.Rand, id int, bloom, compress bool, nPred int) *History {
 	big := r.IntN(4) == 0
 	h := &History{ID: id, Bloom: bloom, Compress: compress, Universe: genUniverse(r, big), WithDel: r.IntN(3) == 0}
 	order := r.Perm(len(h.Universe))
@@ -235,8 +237,41 @@ func genHistory(r *rand.Rand, id int, bloom, compress bool) *History {
 			}
 		}
 	}
+	// the same kind of questions while the history is still going on: later inserts
+	// must invalidate whatever the search paths cached at that point
+	mid := len(h.Ops) / 2
+	h.Ops = append(h.Ops[:mid], append([]Op{{Kind: "flush"}, {Kind: "check", Label: "mid-history", NPred: nPred / 3}}, h.Ops[mid:]...)...)
 	// every history ends with the sequence that the property names explicitly
-	h.Ops = append(h.Ops, Op{Kind: "flush"}, Op{Kind: "clear"}, Op{Kind: "reopen"})
+	h.Ops = append(h.Ops, Op{Kind: "flush"}, Op{Kind: "clear"}, Op{Kind: "reopen"}, Op{Kind: "check", Label: "end-of-history", NPred: nPred - nPred/3})
+	if h.WithDel {
+		// delete by one plain equality, look again, reopen, write the deleted series again
+		var cand []*mstView
+		for _, v := range views(h.Universe, nil) {
+			if len(v.Keys) > 0 && len(v.Series) > 3 {
+				cand = append(cand, v)
+			}
+		}
+		if len(cand) > 0 {
+			v := pick(r, cand)
+			k := pick(r, v.Keys)
+			l := Leaf{Key: k, Op: "=", Val: pick(r, v.Vals[k])}
+			var victims []int
+			for _, si := range v.Series {
+				if h.Universe[si].Get(k) == l.Val {
+					victims = append(victims, si)
+				}
+			}
+			if len(victims) > 20 {
+				victims = victims[:20]
+			}
+			h.Ops = append(h.Ops, Op{Kind: "delete", DelM: v.M, Del: &l}, Op{Kind: "flush"}, Op{Kind: "check", Label: "after-delete", NPred: 12},
+				Op{Kind: "reopen"}, Op{Kind: "check", Label: "after-delete-and-reopen"},
+				Op{Kind: "insert", Items: victims, Path: pick(r, []string{"builder", "mutex", "series"})}, Op{Kind: "flush"},
+				Op{Kind: "check", Label: "after-recreate", NPred: 6})
+		} else {
+			h.WithDel = false
+		}
+	}
 	return h
 }
 
